@@ -1320,8 +1320,10 @@ def run(ctx):
                          "and transformed through SingleSetup / MultiSetup_PreGER and the results related as the property says; non-trivial when the "
                          "untransformed run completes; distinct by hash of the specification")
     ctx.assumptions += [
-        "NOT proved: independence of the result from WHICH contract-meeting SVD / eig decomposition LAPACK returns on noisy data (C08_full_statement); "
-        "supported only by the metamorphic runs (tier A element-wise at 1e-12, tier B multiset matching at 1e-6)",
+        "independence of the result from WHICH contract-meeting SVD / eig decomposition LAPACK returns is proved for exact-rank data (C08_pipeline_svd_choice) "
+        "and for noisy full-rank data truncated at an order that separates retained from discarded singular values (C08_pipeline_*_noisy, least-squares solve "
+        "modelled by its contract); NOT derived: that two decompositions return the same singular values (a hypothesis), rounding; the metamorphic runs "
+        "(tier A element-wise at 1e-12, tier B multiset matching at 1e-6) exercise the statement on the implementation",
         "oracle contracts used by the transport theorems: numpy.linalg.svd (H = U S V^T, U^T U = I, V^T V = I), pinv / inv as left inverses, "
         "numpy.linalg.solve, scipy.linalg.eig, numpy.log (left uninterpreted: the dt statement is about the division)",
         "the spectral estimators are bilinear forms in the data (C13's model; here only the generic bilinear-form lemmas C08_bil_* are proved)",
